@@ -388,26 +388,12 @@ func ruleAztecEncoder(c *Ctx) {
 	}
 	// symbol size
 	if nac := byCallee("aztec.newAztecCode"); len(nac) == 1 {
-		if mphi, ok := nac[0].Common().Args[0].(*ssa.Phi); ok {
-			// base size phi
-			var bphi *ssa.Phi
-			eachInstr(fn, func(b *ssa.BasicBlock, ins ssa.Instruction) {
-				if mk, ok := ins.(*ssa.MakeSlice); ok {
-					if p, ok := mk.Len.(*ssa.Phi); ok {
-						bphi = p
-					}
-				}
-			})
-			if bphi == nil {
-				c.Undecided(R, "aztec.EncodeWithColor/base-size", nac[0].Pos(), "base matrix size not found")
-			} else {
-				checkPhiDef(c, R, "aztec.EncodeWithColor/base-size", n, fn, join, bphi, []edgeSpec{{"11 + 4*Lf", "cf"}, {"14 + 4*Lf", "!cf"}})
-				n.Bind[bphi] = "base"
-				checkPhiDef(c, R, "aztec.EncodeWithColor/matrix-size", n, fn, bphi.Block(), mphi, []edgeSpec{{"base", "cf"}, {"base + 1 + 2*((base/2 - 1)/15)", "!cf"}})
-			}
-		} else {
-			c.Undecided(R, "aztec.EncodeWithColor/matrix-size", nac[0].Pos(), "matrix size is not chosen by compactness")
-		}
+		cases := n.valueCases(fn, join, nac[0].Common().Args[0], 0)
+		checkCases(c, R, "aztec.EncodeWithColor/matrix-size", nac[0].Pos(), cases, []edgeSpec{
+			{"11 + 4*Lf", "cf"},
+			{"14 + 4*Lf + 1 + 2*(((14 + 4*Lf)/2 - 1)/15)", "!cf"}})
+	} else {
+		c.Check(R, "aztec.EncodeWithColor/matrix-size", fn.Pos(), false, "one newAztecCode call", fmt.Sprint(len(nac)))
 	}
 }
 
@@ -428,3 +414,155 @@ func hlJoin(fn *ssa.Function, a, b *ssa.BasicBlock) *ssa.BasicBlock {
 }
 
 var _ = token.ADD
+
+// ---------------------------------------------------------------------------------------------
+// Case analysis of a value: phis inside its expression tree and results of multi-block helpers
+// are expanded into (value, condition) alternatives.
+
+type valCase struct {
+	val  Poly
+	cond *Cond
+}
+
+func collectPhis(v ssa.Value, n *Normer, out *[]*ssa.Phi, depth int) {
+	if depth > 7 {
+		return
+	}
+	if _, bound := n.Bind[v]; bound {
+		return
+	}
+	switch x := v.(type) {
+	case *ssa.Phi:
+		blk := x.Block()
+		for _, p := range blk.Preds {
+			if blk.Dominates(p) {
+				return // loop-carried
+			}
+		}
+		for _, q := range *out {
+			if q == x {
+				return
+			}
+		}
+		*out = append(*out, x)
+		for _, e := range x.Edges {
+			collectPhis(e, n, out, depth+1)
+		}
+	case *ssa.BinOp:
+		collectPhis(x.X, n, out, depth+1)
+		collectPhis(x.Y, n, out, depth+1)
+	case *ssa.Convert:
+		collectPhis(x.X, n, out, depth+1)
+	case *ssa.UnOp:
+		collectPhis(x.X, n, out, depth+1)
+	case *ssa.ChangeType:
+		collectPhis(x.X, n, out, depth+1)
+	}
+}
+
+func (n *Normer) valueCases(fn *ssa.Function, from *ssa.BasicBlock, v ssa.Value, depth int) []valCase {
+	if depth > 3 {
+		return []valCase{{n.Norm(v), cTrue}}
+	}
+	// result of a multi-block helper: one alternative per return
+	if ex, ok := v.(*ssa.Extract); ok {
+		if call, ok := ex.Tuple.(*ssa.Call); ok {
+			if _, bound := n.Bind[call]; !bound {
+				if cal := call.Common().StaticCallee(); cal != nil && isRepoFunc(cal) && cal.Blocks != nil && !inlinable(cal) && cal.Object() != nil && !cal.Object().Exported() {
+					var out []valCase
+					saved := n.Ctx
+					n.Ctx = append(append([]ssa.CallInstruction{}, saved...), call)
+					for _, ret := range returnsOf(cal) {
+						if ex.Index >= len(ret.Results) {
+							continue
+						}
+						rc := n.ReachCond(cal, nil, ret.Block())
+						for _, sub := range n.valueCases(cal, nil, ret.Results[ex.Index], depth+1) {
+							out = append(out, valCase{sub.val, cAnd(rc, sub.cond)})
+						}
+					}
+					n.Ctx = saved
+					return mergeCases(out)
+				}
+			}
+		}
+	}
+	var phis []*ssa.Phi
+	collectPhis(v, n, &phis, 0)
+	if len(phis) == 0 || len(phis) > 4 {
+		return []valCase{{n.Norm(v), cTrue}}
+	}
+	var out []valCase
+	var rec func(k int, cond *Cond)
+	rec = func(k int, cond *Cond) {
+		if k == len(phis) {
+			if eq, _ := CondEquivalent(cond, cFalse); eq {
+				return
+			}
+			out = append(out, valCase{n.Norm(v), cond})
+			return
+		}
+		phi := phis[k]
+		blk := phi.Block()
+		f := blk.Idom()
+		if from != nil && from.Dominates(blk) && from != blk {
+			f = from
+		}
+		for ei := range phi.Edges {
+			n.PhiChoice[phi] = ei
+			pred := blk.Preds[ei]
+			rec(k+1, cAnd(cond, cAnd(n.ReachCond(fn, f, pred), n.EdgeCond(pred, blk))))
+		}
+		delete(n.PhiChoice, phi)
+	}
+	rec(0, cTrue)
+	return mergeCases(out)
+}
+
+func mergeCases(in []valCase) []valCase {
+	var out []valCase
+	for _, c := range in {
+		found := false
+		for i := range out {
+			if pEqual(out[i].val, c.val) {
+				out[i].cond = cOr(out[i].cond, c.cond)
+				found = true
+			}
+		}
+		if !found {
+			out = append(out, c)
+		}
+	}
+	return out
+}
+
+// checkCases: the alternatives of a value must be exactly the expected (formula, condition) pairs.
+func checkCases(c *Ctx, R, key string, pos token.Pos, cases []valCase, specs []edgeSpec) {
+	used := make([]bool, len(cases))
+	for si, sp := range specs {
+		ok := false
+		why := "no alternative with value " + MustRef(sp.val).String()
+		for ci, cs := range cases {
+			if !pEqual(cs.val, MustRef(sp.val)) {
+				continue
+			}
+			used[ci] = true
+			if sp.cond == "" {
+				ok = true
+				continue
+			}
+			eq, w := CondEquivalent(cs.cond, MustRefCond(sp.cond))
+			if eq {
+				ok = true
+			} else {
+				why = fmt.Sprintf("value %s arises under %s, expected under %s (differs at %s)", cs.val, cs.cond, MustRefCond(sp.cond), w)
+			}
+		}
+		c.Check(R, fmt.Sprintf("%s/case%d", key, si), pos, ok, fmt.Sprintf("%s when %s", sp.val, sp.cond), map[bool]string{true: "ok", false: why}[ok])
+	}
+	for ci, cs := range cases {
+		if !used[ci] {
+			c.Check(R, fmt.Sprintf("%s/extra%d", key, ci), pos, false, "only the expected alternatives", fmt.Sprintf("%s when %s", cs.val, cs.cond))
+		}
+	}
+}
